@@ -1,6 +1,8 @@
 // matk.cpp — C09: matrix product, transpose and structure kernels of src/linalg.c against their
 // definitions on every small shape, with guard cells around every output.  DESIGN.md §4.C09.
 #include "../engine/grid.hpp"
+#include <cmath>
+#include <cstring>
 
 extern "C" {
 #include "a/linalg.h"
@@ -87,25 +89,28 @@ static void product(int v, unsigned r, unsigned k, unsigned c, int content, unsi
     }
 }
 
-static void structure(unsigned m, unsigned n)
+// pattern 0: index-coded entries; pattern 1: signed zeros (+0 above, -0 below the diagonal, 1 on it): "exact" means bit for bit,
+// and an implementation that skips "equal" mirrored entries or re-creates zeros instead of copying them is visible only here
+static void structure(unsigned m, unsigned n, int pattern = 0)
 {
     std::vector<a_real> A((size_t)m * n), A0;
-    for (unsigned i = 0; i < m; ++i) { for (unsigned j = 0; j < n; ++j) { A[(size_t)i * n + j] = xval(i, j); } }
+    for (unsigned i = 0; i < m; ++i) { for (unsigned j = 0; j < n; ++j) { A[(size_t)i * n + j] = pattern == 0 ? xval(i, j) : (i < j ? (a_real)0.0 : i > j ? (a_real)-0.0 : (a_real)1); } }
     A0 = A;
-    std::string sh = shape(m, n);
+    std::string sh = shape(m, n) + (pattern ? "|signed-zeros" : "");
     std::string in = "{\"m\":" + std::to_string(m) + ",\"n\":" + std::to_string(n) + "}";
     auto check = [&](const char *fn, Out &O, unsigned rows, unsigned cols, std::function<double(unsigned, unsigned)> want) {
         ++n_eval;
         n_nt += m != n;
         if (!O.guards_ok()) { R.viol(std::string(fn) + "|" + sh + "|overrun", std::string("a_real_") + fn + " wrote outside its " + std::to_string(rows) + "x" + std::to_string(cols) + " result", in); return; }
-        if (A != A0) { R.viol(std::string(fn) + "|" + sh + "|input-modified", std::string("a_real_") + fn + " modified its input", in); return; }
+        if (memcmp(A.data(), A0.data(), sizeof(a_real) * A.size()) != 0) { R.viol(std::string(fn) + "|" + sh + "|input-modified", std::string("a_real_") + fn + " modified its input", in); return; }
         for (unsigned i = 0; i < rows; ++i)
         {
             for (unsigned j = 0; j < cols; ++j)
             {
-                if (O.p()[(size_t)i * cols + j] != (a_real)want(i, j))
+                a_real wv = (a_real)want(i, j), gv = O.p()[(size_t)i * cols + j];
+                if (memcmp(&gv, &wv, sizeof gv) != 0)
                 {
-                    R.viol(std::string(fn) + "|" + sh + "|pattern", std::string("a_real_") + fn + " on a " + std::to_string(m) + "x" + std::to_string(n) + " shape: entry (" + std::to_string(i) + "," + std::to_string(j) + ") is " + std::to_string((double)O.p()[(size_t)i * cols + j]) + ", specified " + std::to_string(want(i, j)), in);
+                    R.viol(std::string(fn) + "|" + sh + "|pattern", std::string("a_real_") + fn + " on a " + std::to_string(m) + "x" + std::to_string(n) + " shape: entry (" + std::to_string(i) + "," + std::to_string(j) + ") is " + std::to_string((double)gv) + (std::signbit((double)gv) ? " (sign bit set)" : "") + ", specified " + std::to_string(want(i, j)) + (std::signbit(want(i, j)) ? " (sign bit set)" : ""), in);
                     return;
                 }
             }
@@ -166,7 +171,7 @@ int main(int argc, char **argv)
         }
         R.part(std::string("four product variants on every (row, inner, col) in 1..") + std::to_string(D) + "^3 with index-coded operands, plus all single-entry operand pairs for dims <= 3; stale data in the result area, guard cells around it", n_eval, n_nt);
         uint64_t e0 = n_eval, t0 = n_nt;
-        for (unsigned m = 1; m <= S; ++m) { for (unsigned n = 1; n <= S; ++n) { if (R.shard.mine(item++)) { structure(m, n); } } }
+        for (unsigned m = 1; m <= S; ++m) { for (unsigned n = 1; n <= S; ++n) { if (R.shard.mine(item++)) { structure(m, n); structure(m, n, 1); } } }
         R.part(std::string("T1/T2/eye/tri/diag/triL/triL1/triU/triU1 and their rectangular forms on every (m, n) in 1..") + std::to_string(S) + "^2 (wide, square, tall), T2 and T1 applied twice", n_eval - e0, n_nt - t0);
         R.sample("{\"fn\":\"a_real_mulmT\",\"row\":2,\"col\":3,\"inner\":1,\"X\":\"index-coded 2x1\",\"Y\":\"primes 3x1\",\"check\":\"Z == X*Y^T exactly, 24 guard cells on both sides untouched\"}");
         R.finish(true, "every listed shape enumerated");
